@@ -7,7 +7,7 @@ Ops (all stateless; numbers decimal, bytes hex, `-` = empty):
   lock.rt PRIMARY TS TTL KIND MINC | lock.dec HEX | write.rt KIND START SHORT | write.dec HEX
   man.rt EDIT | man.dec HEX | man.read HEX
   ikey.rt CF UKEY TS | ikey.split HEX | kts.rt KEY TS | kts.parse HEX | key.cmp A B
-  vs.rt META EXP VALUE | vs.dec HEX | vp.rt LEN OFF FID BUCKET | vp.dec HEX
+  vs.rt META EXP VALUE | vs.size META EXP VALUE | ent.size VALUE META EXP | vs.dec HEX | vp.rt LEN OFF FID BUCKET | vp.dec HEX
   hdr.rt KLEN VLEN META EXP | hdr.dec HEX | ent.rt KEY VAL META EXP | ent.dec HEX | vsl.dec HEX
   cmd.rt BODY | cmd.dec HEX | raft.ents.rt GID BODIES | raft.ents.dec HEX
   raft.hs.rt GID BODY | raft.hs.dec HEX | raft.snap.rt GID BODY | raft.snap.dec HEX
@@ -46,6 +46,7 @@ def setCfg (c : CodecCfg) (kv : String) : Option CodecCfg :=
     | "man.nilPayloadOp" => do let b ← two "le" "lt"; pure { c with manNilPayloadLt := b }
     | "entry.alloc" => do let b ← two "declared" "bounded"; pure { c with entryAllocBounded := b }
     | "vs.decodeGuard" => do let b ← two "none" "checked"; pure { c with vsDecodeChecked := b }
+    | "vs.sizeVarint" => if v == "loop7" then some c else none
     | "key.parseTsMin" => do let o ← CmpOp.ofString? v; pure { c with parseTsMin := o }
     | "key.tsEnc" => some { c with tsInverted := v == "maxminus" }
     | "key.cmpShape" => some { c with cmpPrefixSuffix := v == "prefix-then-suffix8" }
@@ -154,6 +155,9 @@ def specCmp (a b : Bytes) : String :=
     let vb := maxU64 - beNat (b.drop (b.length - 8))
     if Bytes.lt pa pb then "-1" else if Bytes.lt pb pa then "1"
     else if va > vb then "-1" else if va < vb then "1" else "0"
+
+/-- width of a uvarint straight from the format: one byte per started group of 7 bits -/
+def specVarintLen (x : Nat) : Nat := if x = 0 then 1 else (Nat.log2 x + 1 + 6) / 7
 
 def reply (m s : String) : String := m ++ "\t" ++ s
 
@@ -270,6 +274,24 @@ def step (c : CodecCfg) (toks : List String) : CodecCfg × String :=
       let enc := encodeValue ⟨mn, en, vb⟩
       let r := decodeValue c enc
       (c, reply (outStr (fun x => s!"{x.mt}:{x.expiresAt}:{hx x.value}") r ++ " " ++ hx enc) s!"{m}:{e}:{v} *")
+    | _, _, _ => (c, "bad-op")
+  | ["vs.size", m, e, v] =>
+    -- allocate EncodedSize() bytes, EncodeValue into them, DecodeValue the whole buffer
+    match natOf? m, natOf? e, bytesOf? v with
+    | some mn, some en, some vb =>
+      let vs : ValueStruct := ⟨mn, en, vb⟩
+      let enc := encodeValue vs
+      let size := valueEncodedSize vs
+      let buf := (enc ++ List.replicate (size - enc.length) 0).take size
+      let r := decodeValue c buf
+      let spec := 1 + specVarintLen en + vb.length
+      (c, reply (s!"{size}:{min enc.length size}:" ++ outStr (fun x => s!"{x.mt}:{x.expiresAt}:{hx x.value}") r)
+        s!"{spec}:{spec}:{m}:{e}:{v}")
+    | _, _, _ => (c, "bad-op")
+  | ["ent.size", v, m, e] =>
+    match bytesOf? v, natOf? m, natOf? e with
+    | some vb, some mn, some en =>
+      (c, reply s!"{entryEncodedSize ⟨[], vb, mn, en⟩}" s!"{vb.length + specVarintLen mn + specVarintLen en}")
     | _, _, _ => (c, "bad-op")
   | ["vs.dec", h] =>
     match bytesOf? h with
